@@ -296,9 +296,15 @@ def rand_history(rng, kind, ms, n):
 
 def shards(tier, seed):
     out = []
-    for ci in range(len(CONFIGS)):
-        out.append({"kind": "exh", "cfg": ci, "full": True, "maxlen": EXH_FULL_LEN[tier], "bucket": 0, "nb": 1, "sync": False})
-    nb = 2 if tier == "quick" else 4
+    if tier == "quick":
+        for k in range(3):      # one shard per class (4 maxsizes each): keeps subprocess start-up cost low
+            out.append({"kind": "exh", "cfgs": [k * 4 + j for j in range(4)], "full": True, "maxlen": EXH_FULL_LEN[tier],
+                        "bucket": 0, "nb": 1, "sync": False})
+    else:
+        for ci in range(len(CONFIGS)):
+            out.append({"kind": "exh", "cfg": ci, "full": True, "maxlen": EXH_FULL_LEN[tier], "bucket": 0, "nb": 1,
+                        "sync": False})
+    nb = 1 if tier == "quick" else 4
     for ci in range(len(CONFIGS)):
         for b in range(nb):
             out.append({"kind": "exh", "cfg": ci, "full": False, "maxlen": EXH_RED_LEN[tier], "bucket": b, "nb": nb,
@@ -306,8 +312,8 @@ def shards(tier, seed):
     for k in range(3):
         out.append({"kind": "exh", "cfgs": [k * 4 + j for j in range(4)], "full": False, "maxlen": EXH_RED_LEN[tier] - 1,
                     "bucket": 0, "nb": 1, "sync": True})
-    k = 8 if tier == "quick" else 16
-    n = 8000 if tier == "quick" else 800000
+    k = 6 if tier == "quick" else 16
+    n = 6000 if tier == "quick" else 800000
     for j in range(k):
         out.append({"kind": "rand", "n": n // k, "maxlen": 24 if tier == "quick" else 40, "j": j})
     return out
